@@ -393,11 +393,9 @@ class CFG:
         return out
 
 
-_cache: dict[int, CFG] = {}
-
-
 def cfg_of(fn_node: ast.AST) -> CFG:
-    k = id(fn_node)
-    if k not in _cache:
-        _cache[k] = CFG(fn_node)
-    return _cache[k]
+    g = getattr(fn_node, '_wc_cfg', None)
+    if g is None:
+        g = CFG(fn_node)
+        fn_node._wc_cfg = g  # cached on the node itself (never in an id-keyed table: ids are reused)
+    return g
